@@ -63,6 +63,9 @@ type processInfo struct {
 // runCommand returns a process starter that invokes the given command-line in
 // a separate OS process.
 func runCommand(command []string) processStarter {
+	if s := verifOverride(command); s != nil {
+		return s
+	}
 	return makeProcess(func(ctx context.Context, stdin io.ReadCloser, stdout, stderr io.WriteCloser) (processController, error) {
 		ctx, cancel := context.WithCancel(ctx)
 		cmd := exec.CommandContext(ctx, command[0], command[1:]...) //nolint:gosec
@@ -125,6 +128,9 @@ func runCommand(command []string) processStarter {
 // runInProcess returns a process starter that invokes the given function
 // in another goroutine.
 func runInProcess(args []string, impl func(ctx context.Context, args []string, in io.ReadCloser, out, err io.WriteCloser) error) processStarter {
+	if s := verifOverride(args); s != nil {
+		return s
+	}
 	return makeProcess(func(ctx context.Context, stdin io.ReadCloser, stdout, stderr io.WriteCloser) (processController, error) {
 		ctx, cancel := context.WithCancel(ctx)
 		proc := &localProcess{
